@@ -339,13 +339,16 @@ Qed.
 (* A document element is written down as the tokens it consists of, with the
    structure made explicit.  An argument group carries the MergedSpacer token
    that may precede it, its kind, its two delimiter tokens and its body.
-   An environment is  \ begin <name group> body \ end <name group>. *)
+   An environment is  \ begin <name group> body \ end <name group>.
+   An item is  \ item <argument groups> body,  the body extending up to the
+   next \item, an \end, a closing brace or the end of the input. *)
 Inductive doc :=
 | DLeaf (t : token)
 | DGroup (o : token) (body : list doc) (c : token)
 | DCmd (e n : token) (args : list arg)
 | DMath (k : mathkind) (o : token) (body : list doc) (c : token)
 | DEnv (e b : token) (ng : arg) (body : list doc) (e2 en : token) (ng2 : arg)
+| DItem (e n : token) (args : list arg) (body : list doc)
 with arg :=
 | Arg (sp : option token) (k : groupkind) (o : token) (body : list doc) (c : token).
 
@@ -358,6 +361,8 @@ Section doc_ind'.
   Hypothesis HMath : forall k o b c, Forall P b -> P (DMath k o b c).
   Hypothesis HEnv : forall e b ng body e2 en ng2,
       Q ng -> Forall P body -> Q ng2 -> P (DEnv e b ng body e2 en ng2).
+  Hypothesis HItem : forall e n args body,
+      Forall Q args -> Forall P body -> P (DItem e n args body).
   Hypothesis HArg : forall sp k o b c, Forall P b -> Q (Arg sp k o b c).
 
   Fixpoint doc_ind' (d : doc) : P d :=
@@ -378,6 +383,7 @@ Section doc_ind'.
     | DMath k o b c => HMath k o b c (go b)
     | DEnv e b ng body e2 en ng2 =>
       HEnv e b ng body e2 en ng2 (arg_ind' ng) (go body) (arg_ind' ng2)
+    | DItem e n args body => HItem e n args body (goa args) (go body)
     end
   with arg_ind' (a : arg) : Q a :=
     let fix go (l : list doc) : Forall P l :=
@@ -402,6 +408,7 @@ Fixpoint flat (d : doc) : list token :=
   | DMath _ o b c => o :: concat (map flat b) ++ [c]
   | DEnv e b ng body e2 en ng2 =>
     e :: b :: flat_arg ng ++ concat (map flat body) ++ e2 :: en :: flat_arg ng2
+  | DItem e n args body => e :: n :: concat (map flat_arg args) ++ concat (map flat body)
   end
 with flat_arg (a : arg) : list token :=
   match a with
@@ -420,6 +427,8 @@ Fixpoint tree (d : doc) : expr :=
   | DMath k o b _ => EMath k (map tree b) (tpos o)
   | DEnv e _ ng body _ _ _ =>
     ENamed (strip (arg_string (tree_arg ng))) [] (map tree body) (tpos e)
+  | DItem e n args body =>
+    ECmd (strip (ttext n)) (map tree_arg args) (map tree body) (tpos e)
   end
 with tree_arg (a : arg) : expr :=
   match a with
@@ -433,7 +442,7 @@ Definition env_name (ng : arg) : str := strip (arg_string (tree_arg ng)).
 (* --------------------------------------------------- well-formedness *)
 
 (* the loop that reads a body: what closes it *)
-Inductive ctx := CTop | CGroup (k : groupkind) | CMath (k : mathkind) | CEnv.
+Inductive ctx := CTop | CGroup (k : groupkind) | CMath (k : mathkind) | CEnv | CItem.
 
 Definition closes (x : ctx) (t : token) : bool :=
   match x with
@@ -441,7 +450,15 @@ Definition closes (x : ctx) (t : token) : bool :=
   | CGroup k => is_group_end k t
   | CMath k => is_math_end k t
   | CEnv => false
+  | CItem => is_tc TGroupEnd t
   end.
+
+Definition is_item (d : doc) : bool :=
+  match d with DItem _ _ _ _ => true | _ => false end.
+
+(* an \item is never an element of an item body: it ends that body *)
+Definition allowed (x : ctx) (d : doc) : bool :=
+  match x with CItem => negb (is_item d) | _ => true end.
 
 Definition dhead (d : doc) : token :=
   match d with
@@ -450,6 +467,7 @@ Definition dhead (d : doc) : token :=
   | DCmd e _ _ => e
   | DMath _ o _ _ => o
   | DEnv e _ _ _ _ _ _ => e
+  | DItem e _ _ _ => e
   end.
 
 (* "after an optional MergedSpacer the next token is not a k" *)
@@ -469,11 +487,18 @@ Definition cmd_follow (args : list arg) (rest : list token) : bool :=
   (if existsb is_brace_arg args then head_notb TBracketBegin rest
    else stopsb TBracketBegin rest).
 
-Definition follows_ok (d : doc) (rest : list token) : bool :=
-  match d with
-  | DCmd _ _ args => cmd_follow args rest
-  | DEnv _ _ _ _ _ _ ng2 => cmd_follow [ng2] rest
-  | _ => true
+(* where an item body stops: at the end of the input, before `\end` or
+   `\item` (the token after an escape names the command), before a `}` *)
+Definition item_stop_b (rest : list token) : bool :=
+  match rest with
+  | [] => true
+  | t :: tl =>
+    if is_tc TEscape t
+    then match tl with
+         | n :: _ => str_eqb (ttext n) s_end || str_eqb (ttext n) s_item
+         | [] => false
+         end
+    else is_tc TGroupEnd t
   end.
 
 (* bracket groups before brace groups: the first pass of read_args only *)
@@ -498,12 +523,13 @@ Definition name_ok (n : token) : bool :=
 (* a body: every element well-formed, not starting with the closer of the
    enclosing loop, and followed by what its follow condition allows; `rest`
    is what comes after the whole sequence *)
-Definition seq_wf (W : doc -> bool) (x : ctx) : list doc -> list token -> bool :=
+Definition seq_wf (W : doc -> bool) (F : doc -> list token -> bool) (x : ctx)
+  : list doc -> list token -> bool :=
   fix go (ds : list doc) (rest : list token) {struct ds} : bool :=
     match ds with
     | [] => true
     | d :: ds' =>
-      negb (closes x (dhead d)) && W d && follows_ok d (flat_list ds' ++ rest) &&
+      negb (closes x (dhead d)) && allowed x d && W d && F d (flat_list ds' ++ rest) &&
       go ds' rest
     end.
 
@@ -514,44 +540,73 @@ Variable SK : list str.
 
 (* mm: the element is read in math mode (inside a math region; inherited by
    argument groups and environment bodies, reset by a free-standing brace
-   group).  Recorded because the reader's treatment of \item depends on it;
-   no construct of the present grammar is sensitive to it. *)
+   group): \item is an AssertionError in math mode.
+   follows_ok d rest: what may follow d (its follow condition); for an item
+   this includes the well-formedness of its body, which ends where `rest`
+   begins. *)
 Fixpoint wf (mm : bool) (d : doc) {struct d} : bool :=
   match d with
   | DLeaf t => leaf_cat (tcat t)
   | DGroup o b c =>
-    is_tc TGroupBegin o && is_group_end GBrace c && seq_wf (wf false) (CGroup GBrace) b [c]
+    is_tc TGroupBegin o && is_group_end GBrace c && seq_wf (wf false) follows_ok (CGroup GBrace) b [c]
   | DCmd e n args =>
     is_tc TEscape e && name_ok n && brackets_first (map arg_kind args) &&
     forallb (wf_arg mm) args
   | DMath k o b c =>
-    opens_math_kind k o && is_math_end k c && seq_wf (wf true) (CMath k) b [c]
+    opens_math_kind k o && is_math_end k c && seq_wf (wf true) follows_ok (CMath k) b [c]
   | DEnv e b ng body e2 en ng2 =>
     is_tc TEscape e && str_eqb (ttext b) s_begin &&
     wf_arg mm ng && is_brace_arg ng &&
     negb (mem_str (env_name ng) Tables.math_env_names) && negb (mem_str (env_name ng) SK) &&
     cmd_follow [ng] (flat_list body ++ [e2]) &&
-    seq_wf (wf mm) CEnv body [e2; en] &&
+    seq_wf (wf mm) follows_ok CEnv body [e2; en] &&
     is_tc TEscape e2 && str_eqb (ttext en) s_end &&
     wf_arg mm ng2 && is_brace_arg ng2 &&
     str_eqb (arg_string (tree_arg ng2)) (env_name ng)
+  | DItem e n args body =>
+    negb mm && is_tc TEscape e && str_eqb (ttext n) s_item &&
+    brackets_first (map arg_kind args) && forallb (wf_arg mm) args
   end
 with wf_arg (mm : bool) (a : arg) {struct a} : bool :=
   match a with
   | Arg sp k o b c =>
     match sp with Some s => is_tc TMergedSpacer s | None => true end &&
-    opens_group_kind k o && is_group_end k c && seq_wf (wf mm) (CGroup k) b [c]
+    opens_group_kind k o && is_group_end k c && seq_wf (wf mm) follows_ok (CGroup k) b [c]
+  end
+with follows_ok (d : doc) (rest : list token) {struct d} : bool :=
+  match d with
+  | DCmd _ _ args => cmd_follow args rest
+  | DEnv _ _ _ _ _ _ ng2 => cmd_follow [ng2] rest
+  | DItem _ _ args body =>
+    cmd_follow args (flat_list body ++ rest) &&
+    seq_wf (wf false) follows_ok CItem body rest &&
+    item_stop_b rest
+  | _ => true
   end.
 
 Definition wf_seq (mm : bool) (x : ctx) (ds : list doc) (rest : list token) : bool :=
-  seq_wf (wf mm) x ds rest.
+  seq_wf (wf mm) follows_ok x ds rest.
 
 (* ------------------------------------------------- equations, list facts *)
 
-Lemma seq_wf_cons W x d ds rest :
-  seq_wf W x (d :: ds) rest =
-  negb (closes x (dhead d)) && W d && follows_ok d (flat_list ds ++ rest) && seq_wf W x ds rest.
+Lemma wf_seq_cons mm x d ds rest :
+  wf_seq mm x (d :: ds) rest =
+  negb (closes x (dhead d)) && allowed x d && wf mm d && follows_ok d (flat_list ds ++ rest) &&
+  wf_seq mm x ds rest.
 Proof. reflexivity. Qed.
+
+Lemma wf_seq_cons_parts mm x d ds rest :
+  wf_seq mm x (d :: ds) rest = true ->
+  closes x (dhead d) = false /\ allowed x d = true /\ wf mm d = true /\
+  follows_ok d (flat_list ds ++ rest) = true /\ wf_seq mm x ds rest = true.
+Proof.
+  rewrite wf_seq_cons. intro H.
+  apply andb_true_iff in H. destruct H as [H H5].
+  apply andb_true_iff in H. destruct H as [H H4].
+  apply andb_true_iff in H. destruct H as [H H3].
+  apply andb_true_iff in H. destruct H as [H1 H2].
+  apply negb_true_iff in H1. auto.
+Qed.
 
 Lemma flat_list_cons d ds : flat_list (d :: ds) = flat d ++ flat_list ds.
 Proof. reflexivity. Qed.
@@ -570,13 +625,16 @@ Lemma flat_env e b ng body e2 en ng2 :
   flat (DEnv e b ng body e2 en ng2) =
   e :: b :: flat_arg ng ++ flat_list body ++ e2 :: en :: flat_arg ng2.
 Proof. reflexivity. Qed.
+Lemma flat_item e n args body :
+  flat (DItem e n args body) = e :: n :: flat_args args ++ flat_list body.
+Proof. reflexivity. Qed.
 Lemma flat_arg_eq sp k o b c :
   flat_arg (Arg sp k o b c) = opt_tok sp ++ o :: flat_list b ++ [c].
 Proof. reflexivity. Qed.
 
 Lemma wf_group mm o b c :
   wf mm (DGroup o b c) =
-  is_tc TGroupBegin o && is_group_end GBrace c && seq_wf (wf false) (CGroup GBrace) b [c].
+  is_tc TGroupBegin o && is_group_end GBrace c && wf_seq false (CGroup GBrace) b [c].
 Proof. reflexivity. Qed.
 Lemma wf_cmd mm e n args :
   wf mm (DCmd e n args) =
@@ -585,7 +643,7 @@ Lemma wf_cmd mm e n args :
 Proof. reflexivity. Qed.
 Lemma wf_math mm k o b c :
   wf mm (DMath k o b c) =
-  opens_math_kind k o && is_math_end k c && seq_wf (wf true) (CMath k) b [c].
+  opens_math_kind k o && is_math_end k c && wf_seq true (CMath k) b [c].
 Proof. reflexivity. Qed.
 Lemma wf_env mm e b ng body e2 en ng2 :
   wf mm (DEnv e b ng body e2 en ng2) =
@@ -593,15 +651,24 @@ Lemma wf_env mm e b ng body e2 en ng2 :
   wf_arg mm ng && is_brace_arg ng &&
   negb (mem_str (env_name ng) Tables.math_env_names) && negb (mem_str (env_name ng) SK) &&
   cmd_follow [ng] (flat_list body ++ [e2]) &&
-  seq_wf (wf mm) CEnv body [e2; en] &&
+  wf_seq mm CEnv body [e2; en] &&
   is_tc TEscape e2 && str_eqb (ttext en) s_end &&
   wf_arg mm ng2 && is_brace_arg ng2 &&
   str_eqb (arg_string (tree_arg ng2)) (env_name ng).
 Proof. reflexivity. Qed.
+Lemma wf_item mm e n args body :
+  wf mm (DItem e n args body) =
+  negb mm && is_tc TEscape e && str_eqb (ttext n) s_item &&
+  brackets_first (map arg_kind args) && forallb (wf_arg mm) args.
+Proof. reflexivity. Qed.
+Lemma follows_ok_item e n args body rest :
+  follows_ok (DItem e n args body) rest =
+  cmd_follow args (flat_list body ++ rest) && wf_seq false CItem body rest && item_stop_b rest.
+Proof. reflexivity. Qed.
 Lemma wf_arg_eq mm sp k o b c :
   wf_arg mm (Arg sp k o b c) =
   match sp with Some s => is_tc TMergedSpacer s | None => true end &&
-  opens_group_kind k o && is_group_end k c && seq_wf (wf mm) (CGroup k) b [c].
+  opens_group_kind k o && is_group_end k c && wf_seq mm (CGroup k) b [c].
 Proof. reflexivity. Qed.
 
 Lemma flat_head d : exists tl, flat d = dhead d :: tl.
@@ -619,6 +686,18 @@ Proof.
 Qed.
 
 Lemma math_end_not_spacer k c : is_math_end k c = true -> is_tc TMergedSpacer c = false.
+Proof.
+  intro H. apply is_math_end_tok in H. apply is_tc_false. intro E. rewrite E in H.
+  destruct k; vm_compute in H; discriminate H.
+Qed.
+
+Lemma group_end_not_escape k c : is_group_end k c = true -> is_tc TEscape c = false.
+Proof.
+  intro H. apply is_group_end_tok in H. apply is_tc_false. intro E. rewrite E in H.
+  destruct k; vm_compute in H; discriminate H.
+Qed.
+
+Lemma math_end_not_escape k c : is_math_end k c = true -> is_tc TEscape c = false.
 Proof.
   intro H. apply is_math_end_tok in H. apply is_tc_false. intro E. rewrite E in H.
   destruct k; vm_compute in H; discriminate H.
@@ -683,972 +762,54 @@ Proof.
   reflexivity.
 Qed.
 
-Lemma follows_ok_ext d l c tl r :
-  is_tc TMergedSpacer c = false ->
-  follows_ok d (l ++ c :: tl) = follows_ok d (l ++ c :: tl ++ r).
+Lemma item_stop_b_ext l c tl r :
+  is_tc TEscape c = false \/ tl <> [] ->
+  item_stop_b (l ++ c :: tl) = item_stop_b (l ++ c :: tl ++ r).
 Proof.
-  intro Hc. destruct d; try reflexivity; simpl; apply cmd_follow_ext; exact Hc.
+  intro H. destruct l as [|x [|y l']]; cbn [app item_stop_b]; try reflexivity.
+  destruct (is_tc TEscape c) eqn:E; [|reflexivity].
+  destruct H as [H|H]; [discriminate H|]. destruct tl; [congruence | reflexivity].
 Qed.
 
-Lemma seq_wf_ext W x ds c tl r :
-  is_tc TMergedSpacer c = false ->
-  seq_wf W x ds (c :: tl) = true -> seq_wf W x ds (c :: tl ++ r) = true.
+Definition ext_ok (c : token) (tl : list token) : Prop :=
+  is_tc TMergedSpacer c = false /\ (is_tc TEscape c = false \/ tl <> []).
+
+Lemma follows_ok_ext : forall d l c tl r, ext_ok c tl ->
+  follows_ok d (l ++ c :: tl) = follows_ok d (l ++ c :: tl ++ r).
+Proof.
+  apply (doc_ind' (fun d => forall l c tl r, ext_ok c tl ->
+                     follows_ok d (l ++ c :: tl) = follows_ok d (l ++ c :: tl ++ r))
+                  (fun _ => True)); try (intros; exact I); try (intros; reflexivity).
+  - intros e n args _ l c tl r [Hc _]. cbn [follows_ok]. apply cmd_follow_ext. exact Hc.
+  - intros e b ng body e2 en ng2 _ _ _ l c tl r [Hc _]. cbn [follows_ok].
+    apply cmd_follow_ext. exact Hc.
+  - intros e n args body _ Hbody l c tl r [Hc He]. rewrite !follows_ok_item.
+    rewrite (item_stop_b_ext l c tl r He).
+    rewrite !(app_assoc (flat_list body) l).
+    rewrite (cmd_follow_ext args (flat_list body ++ l) c tl r Hc).
+    f_equal. f_equal.
+    induction Hbody as [|d ds Hd _ IH]; [reflexivity|].
+    rewrite !wf_seq_cons. rewrite IH.
+    rewrite !(app_assoc (flat_list ds) l).
+    rewrite (Hd (flat_list ds ++ l) c tl r (conj Hc He)). reflexivity.
+Qed.
+
+Lemma wf_seq_ext mm x ds c tl r :
+  ext_ok c tl ->
+  wf_seq mm x ds (c :: tl) = true -> wf_seq mm x ds (c :: tl ++ r) = true.
 Proof.
   intro Hc. induction ds as [|d ds IH]; [reflexivity|].
-  rewrite !seq_wf_cons. intro H.
+  rewrite !wf_seq_cons. intro H.
   apply andb_true_iff in H. destruct H as [H H4].
   rewrite <- (follows_ok_ext d (flat_list ds) c tl r Hc), H, (IH H4). reflexivity.
 Qed.
 
-(* ====================================================================== *)
-(* Stage 2: completeness                                                  *)
-(* ====================================================================== *)
-
-(* "for every sufficiently large fuel, F returns r" *)
-Definition Reads {A} (F : nat -> res A) (r : res A) : Prop :=
-  exists f0, forall f, (f0 <= f)%nat -> F f = r.
-
-Definition PPd (d : doc) : Prop := forall skip strict m rest,
-  mode_is_special m = false -> sub_skip SK skip ->
-  wf (mode_is_math m) d = true -> follows_ok d rest = true ->
-  Reads (fun f => read_expr f skip strict m (flat d ++ rest)) (Ok (tree d, rest)).
-
-Definition arg_open (a : arg) : token := match a with Arg _ _ o _ _ => o end.
-Definition arg_inner (a : arg) : list token :=
-  match a with Arg _ _ _ b c => flat_list b ++ [c] end.
-
-Definition PPa (a : arg) : Prop := forall strict m rest,
-  mode_is_special m = false -> wf_arg (mode_is_math m) a = true ->
-  Reads (fun f => read_arg f (arg_open a) strict m (arg_inner a ++ rest))
-        (Ok (tree_arg a, rest)).
-
-Lemma sub_skip_nil : sub_skip SK [].
-Proof. intros n H. unfold mem_str in H. simpl in H. discriminate H. Qed.
-
-(* the body of a group: elements one by one, then the closer *)
-Lemma seq_group ds : Forall PPd ds -> forall k pos strict m acc c rest,
-  mode_is_special m = false ->
-  seq_wf (wf (mode_is_math m)) (CGroup k) ds (c :: rest) = true -> is_group_end k c = true ->
-  Reads (fun f => read_arg_loop f k pos strict m acc (flat_list ds ++ c :: rest))
-        (Ok (EGroup k (acc ++ map tree ds) pos, rest)).
+Lemma ext_ok_group_end k c : is_group_end k c = true -> ext_ok c [].
 Proof.
-  induction 1 as [|d ds Hd Hds IH]; intros k pos strict m acc c rest Hm Hwf Hc.
-  - exists 1%nat. intros f Hf. destruct f as [|f]; [lia|].
-    change (flat_list [] ++ c :: rest) with (c :: rest). simpl map. rewrite app_nil_r.
-    apply C09_group_closes_on_own_delimiter. exact Hc.
-  - rewrite seq_wf_cons in Hwf.
-    apply andb_true_iff in Hwf. destruct Hwf as [Hwf H4].
-    apply andb_true_iff in Hwf. destruct Hwf as [Hwf H3].
-    apply andb_true_iff in Hwf. destruct Hwf as [H1 H2].
-    apply negb_true_iff in H1. cbn [closes] in H1.
-    destruct (flat_head d) as [tl Htl].
-    destruct (Hd [] strict m (flat_list ds ++ c :: rest) Hm sub_skip_nil H2 H3) as [f1 F1].
-    destruct (IH k pos strict m (acc ++ [tree d]) c rest Hm H4 Hc) as [f2 F2].
-    exists (S (Nat.max f1 f2)). intros f Hf. destruct f as [|f]; [lia|].
-    rewrite flat_list_cons, <- app_assoc.
-    assert (E1 := F1 f ltac:(lia)). cbv beta in E1.
-    rewrite Htl in E1 |- *. rewrite <- app_comm_cons in E1 |- *.
-    rewrite (C09_group_continues f k pos strict m acc (dhead d) _ H1), E1. cbn [bind].
-    rewrite F2 by lia. rewrite <- app_assoc. reflexivity.
+  intro H. split; [exact (group_end_not_spacer k c H) | left; exact (group_end_not_escape k c H)].
 Qed.
-
-(* the body of a math region *)
-Lemma seq_math ds : Forall PPd ds -> forall k pos strict acc c rest,
-  seq_wf (wf true) (CMath k) ds (c :: rest) = true -> is_math_end k c = true ->
-  Reads (fun f => read_math_loop f k pos strict acc (flat_list ds ++ c :: rest))
-        (Ok (EMath k (acc ++ map tree ds) pos, rest)).
+Lemma ext_ok_math_end k c : is_math_end k c = true -> ext_ok c [].
 Proof.
-  induction 1 as [|d ds Hd Hds IH]; intros k pos strict acc c rest Hwf Hc.
-  - exists 1%nat. intros f Hf. destruct f as [|f]; [lia|].
-    change (flat_list [] ++ c :: rest) with (c :: rest). simpl map. rewrite app_nil_r.
-    apply C12_math_closes. exact Hc.
-  - rewrite seq_wf_cons in Hwf.
-    apply andb_true_iff in Hwf. destruct Hwf as [Hwf H4].
-    apply andb_true_iff in Hwf. destruct Hwf as [Hwf H3].
-    apply andb_true_iff in Hwf. destruct Hwf as [H1 H2].
-    apply negb_true_iff in H1. cbn [closes] in H1.
-    destruct (flat_head d) as [tl Htl].
-    destruct (Hd [] strict MMath (flat_list ds ++ c :: rest) eq_refl sub_skip_nil H2 H3)
-      as [f1 F1].
-    destruct (IH k pos strict (acc ++ [tree d]) c rest H4 Hc) as [f2 F2].
-    exists (S (Nat.max f1 f2)). intros f Hf. destruct f as [|f]; [lia|].
-    rewrite flat_list_cons, <- app_assoc.
-    assert (E1 := F1 f ltac:(lia)). cbv beta in E1.
-    rewrite Htl in E1 |- *. rewrite <- app_comm_cons in E1 |- *.
-    rewrite (C12_math_continues f k pos strict acc (dhead d) _ H1), E1. cbn [bind].
-    rewrite F2 by lia. rewrite <- app_assoc. reflexivity.
+  intro H. split; [exact (math_end_not_spacer k c H) | left; exact (math_end_not_escape k c H)].
 Qed.
-
-Lemma wf_arg_parts mm sp k o b c :
-  wf_arg mm (Arg sp k o b c) = true ->
-  match sp with Some s => is_tc TMergedSpacer s | None => true end = true /\
-  opens_group_kind k o = true /\ is_group_end k c = true /\
-  seq_wf (wf mm) (CGroup k) b [c] = true.
-Proof.
-  rewrite wf_arg_eq. intro Hwf.
-  apply andb_true_iff in Hwf. destruct Hwf as [Hwf H4].
-  apply andb_true_iff in Hwf. destruct Hwf as [Hwf H3].
-  apply andb_true_iff in Hwf. destruct Hwf as [H1 H2]. auto.
-Qed.
-
-(* one argument group, from its opening token *)
-Lemma arg_group sp k o b c : Forall PPd b -> PPa (Arg sp k o b c).
-Proof.
-  intros Hb strict m rest Hm Hwf.
-  destruct (wf_arg_parts _ _ _ _ _ _ Hwf) as (H1 & H2 & H3 & H4).
-  apply opens_group_kind_spec in H2. destruct H2 as (Hk & _).
-  pose proof (seq_wf_ext _ (CGroup k) b c [] rest (group_end_not_spacer k c H3) H4) as H4'.
-  destruct (seq_group b Hb k (tpos o) strict m [] c rest Hm H4' H3) as [f1 F1].
-  exists (S f1). intros f Hf. destruct f as [|f]; [lia|].
-  cbn [arg_open arg_inner tree_arg]. rewrite <- app_assoc. cbn [app].
-  cbn [read_arg]. rewrite Hk. apply F1. lia.
-Qed.
-
-(* a brace group met by read_expr *)
-Lemma read_expr_group_open f skip strict m o src :
-  is_tc TGroupBegin o = true ->
-  read_expr (S f) skip strict m (o :: src) = read_arg f o strict MNonMath src.
-Proof.
-  intro H. destruct (group_begin_facts o H) as [H1 H2].
-  cbn [read_expr]. rewrite H1, H2, H. reflexivity.
-Qed.
-
-(* ---------------------------------------------------- argument loops *)
-
-Lemma stopsb_stops k toks :
-  stopsb k toks = true ->
-  match head_after_spacer toks with Some c => is_tc k c = false | None => True end.
-Proof.
-  unfold stopsb. destruct (head_after_spacer toks); [|intros; exact I].
-  intro H. apply negb_true_iff. exact H.
-Qed.
-
-(* what read_spacer leaves in front of an argument group *)
-Lemma arg_after_spacer sp k o b c X :
-  match sp with Some s => is_tc TMergedSpacer s | None => true end = true ->
-  is_tc TMergedSpacer o = false ->
-  snd (read_spacer (flat_arg (Arg sp k o b c) ++ X)) = o :: arg_inner (Arg sp k o b c) ++ X.
-Proof.
-  intros Hs Ho. rewrite flat_arg_eq. cbn [arg_inner]. unfold read_spacer.
-  destruct sp as [s|]; cbn [opt_tok app].
-  - rewrite Hs. reflexivity.
-  - rewrite Ho. reflexivity.
-Qed.
-
-Lemma head_after_spacer_arg sp k o b c X :
-  match sp with Some s => is_tc TMergedSpacer s | None => true end = true ->
-  is_tc TMergedSpacer o = false ->
-  head_after_spacer (flat_arg (Arg sp k o b c) ++ X) = Some o.
-Proof.
-  intros Hs Ho. unfold head_after_spacer. rewrite (arg_after_spacer sp k o b c X Hs Ho).
-  reflexivity.
-Qed.
-
-(* the bracket loop: all of `bs`, then stop *)
-Lemma opt_loop bs : Forall PPa bs -> forall acc nopt strict m tail,
-  mode_is_special m = false ->
-  (nopt < 0)%Z -> forallb (wf_arg (mode_is_math m)) bs = true ->
-  forallb is_bracket_arg bs = true ->
-  stopsb TBracketBegin tail = true ->
-  Reads (fun f => read_arg_optional f acc nopt strict m (flat_args bs ++ tail))
-        (Ok ((acc ++ map tree_arg bs, (nopt - Z.of_nat (length bs))%Z), tail)).
-Proof.
-  induction 1 as [|a bs Ha Hbs IH]; intros acc nopt strict m tail Hm Hn Hw Hk Hs.
-  - exists 1%nat. intros f Hf. destruct f as [|f]; [lia|].
-    change (flat_args [] ++ tail) with tail. simpl map. simpl length.
-    rewrite app_nil_r, Z.sub_0_r.
-    apply C09_other_token_detaches_opt. apply stopsb_stops. exact Hs.
-  - cbn [forallb] in Hw, Hk.
-    apply andb_true_iff in Hw. destruct Hw as [Hwa Hw].
-    apply andb_true_iff in Hk. destruct Hk as [Hka Hk].
-    destruct a as [sp k o b c].
-    unfold is_bracket_arg in Hka. cbn [arg_kind] in Hka. apply groupkind_eqb_eq in Hka. subst k.
-    destruct (wf_arg_parts _ _ _ _ _ _ Hwa) as (W1 & W2 & W3 & W4).
-    apply opens_group_kind_spec in W2. destruct W2 as (_ & _ & Ho & Hob).
-    destruct (Ha strict m (flat_args bs ++ tail) Hm Hwa) as [f1 F1].
-    destruct (IH (acc ++ [tree_arg (Arg sp GBracket o b c)]) (nopt - 1)%Z strict m tail
-                 Hm ltac:(lia) Hw Hk Hs) as [f2 F2].
-    exists (S (Nat.max f1 f2)). intros f Hf. destruct f as [|f]; [lia|].
-    rewrite flat_args_cons, <- app_assoc.
-    rewrite (C09_attach_step_opt f acc nopt strict m _ o
-               (arg_inner (Arg sp GBracket o b c) ++ flat_args bs ++ tail)
-               (tree_arg (Arg sp GBracket o b c)) (flat_args bs ++ tail)).
-    + rewrite F2 by lia. rewrite <- app_assoc. cbn [map app length].
-      rewrite Nat2Z.inj_succ.
-      replace (nopt - 1 - Z.of_nat (length bs))%Z with (nopt - Z.succ (Z.of_nat (length bs)))%Z
-        by lia.
-      reflexivity.
-    + lia.
-    + apply arg_after_spacer; assumption.
-    + exact Hob.
-    + apply (F1 f). lia.
-Qed.
-
-(* the brace loop *)
-Lemma req_loop cs : Forall PPa cs -> forall acc nreq strict m tail,
-  mode_is_special m = false ->
-  (nreq < 0)%Z -> forallb (wf_arg (mode_is_math m)) cs = true ->
-  forallb is_brace_arg cs = true ->
-  stopsb TGroupBegin tail = true ->
-  Reads (fun f => read_arg_required f acc nreq strict m (flat_args cs ++ tail))
-        (Ok ((acc ++ map tree_arg cs, (nreq - Z.of_nat (length cs))%Z), tail)).
-Proof.
-  induction 1 as [|a cs Ha Hcs IH]; intros acc nreq strict m tail Hm Hn Hw Hk Hs.
-  - exists 1%nat. intros f Hf. destruct f as [|f]; [lia|].
-    change (flat_args [] ++ tail) with tail. simpl map. simpl length.
-    rewrite app_nil_r, Z.sub_0_r.
-    apply C09_other_token_detaches_req; [lia|]. apply stopsb_stops. exact Hs.
-  - cbn [forallb] in Hw, Hk.
-    apply andb_true_iff in Hw. destruct Hw as [Hwa Hw].
-    apply andb_true_iff in Hk. destruct Hk as [Hka Hk].
-    destruct a as [sp k o b c].
-    unfold is_brace_arg in Hka. cbn [arg_kind] in Hka. apply groupkind_eqb_eq in Hka. subst k.
-    destruct (wf_arg_parts _ _ _ _ _ _ Hwa) as (W1 & W2 & W3 & W4).
-    apply opens_group_kind_spec in W2. destruct W2 as (_ & _ & Ho & Hob).
-    destruct (Ha strict m (flat_args cs ++ tail) Hm Hwa) as [f1 F1].
-    destruct (IH (acc ++ [tree_arg (Arg sp GBrace o b c)]) (nreq - 1)%Z strict m tail
-                 Hm ltac:(lia) Hw Hk Hs) as [f2 F2].
-    exists (S (Nat.max f1 f2)). intros f Hf. destruct f as [|f]; [lia|].
-    rewrite flat_args_cons, <- app_assoc.
-    rewrite (C09_attach_step_req f acc nreq strict m _ o
-               (arg_inner (Arg sp GBrace o b c) ++ flat_args cs ++ tail)
-               (tree_arg (Arg sp GBrace o b c)) (flat_args cs ++ tail)).
-    + rewrite F2 by lia. rewrite <- app_assoc. cbn [map app length].
-      rewrite Nat2Z.inj_succ.
-      replace (nreq - 1 - Z.of_nat (length cs))%Z with (nreq - Z.succ (Z.of_nat (length cs)))%Z
-        by lia.
-      reflexivity.
-    + lia.
-    + apply arg_after_spacer; assumption.
-    + exact Hob.
-    + apply (F1 f). lia.
-Qed.
-
-Lemma all_bracket_no_brace bs :
-  forallb is_bracket_arg bs = true -> existsb is_brace_arg bs = false.
-Proof.
-  induction bs as [|a bs IH]; [reflexivity|]. cbn [forallb existsb]. intro H.
-  apply andb_true_iff in H. destruct H as [Ha H]. rewrite (IH H), orb_false_r.
-  unfold is_bracket_arg in Ha. unfold is_brace_arg. apply groupkind_eqb_eq in Ha.
-  rewrite Ha. reflexivity.
-Qed.
-
-Lemma stopsb_head k toks :
-  k <> TMergedSpacer -> stopsb k toks = true -> head_notb k toks = true.
-Proof.
-  intros Hk H. apply stopsb_stops in H.
-  pose proof (stops_at_head k toks Hk H) as H'. unfold head_notb.
-  destruct toks as [|t ts]; [reflexivity|]. rewrite H'. reflexivity.
-Qed.
-
-(* read_args with the "as many as there are" counts: first pass brackets,
-   first pass braces, and the two second passes find nothing *)
-Lemma args_read bs cs : Forall PPa bs -> Forall PPa cs -> forall strict m rest,
-  mode_is_special m = false ->
-  forallb (wf_arg (mode_is_math m)) bs = true -> forallb is_bracket_arg bs = true ->
-  forallb (wf_arg (mode_is_math m)) cs = true -> forallb is_brace_arg cs = true ->
-  cmd_follow (bs ++ cs) rest = true ->
-  Reads (fun f => read_args f (-1) (-1) strict m (flat_args (bs ++ cs) ++ rest))
-        (Ok (map tree_arg (bs ++ cs), rest)).
-Proof.
-  intros Hbs Hcs strict m rest Hm Wb Kb Wc Kc Hfol.
-  unfold cmd_follow in Hfol. apply andb_true_iff in Hfol. destruct Hfol as [Fg Fb].
-  rewrite existsb_app, (all_bracket_no_brace bs Kb), orb_false_l in Fb.
-  (* the bracket loop stops in front of the brace groups / the rest *)
-  assert (S1 : stopsb TBracketBegin (flat_args cs ++ rest) = true).
-  { destruct cs as [|[sp k o b c] cs'].
-    - exact Fb.
-    - cbn [forallb] in Wc, Kc.
-      apply andb_true_iff in Wc. destruct Wc as [Wa _].
-      apply andb_true_iff in Kc. destruct Kc as [Ka _].
-      unfold is_brace_arg in Ka. cbn [arg_kind] in Ka. apply groupkind_eqb_eq in Ka. subst k.
-      destruct (wf_arg_parts _ _ _ _ _ _ Wa) as (W1 & W2 & _).
-      apply opens_group_kind_spec in W2. destruct W2 as (_ & _ & Ho & Hob).
-      unfold stopsb. rewrite flat_args_cons, <- app_assoc.
-      rewrite (head_after_spacer_arg sp GBrace o b c _ W1 Ho).
-      rewrite (is_tc_excl _ TBracketBegin _ Hob); [reflexivity | discriminate]. }
-  assert (H3 : head_notb TBracketBegin rest = true).
-  { destruct cs as [|c0 cs'].
-    - apply stopsb_head; [discriminate | exact Fb].
-    - cbn [forallb] in Kc. apply andb_true_iff in Kc. destruct Kc as [Ka _].
-      cbn [existsb] in Fb. rewrite Ka in Fb. exact Fb. }
-  assert (H4 : head_notb TGroupBegin rest = true).
-  { apply stopsb_head; [discriminate | exact Fg]. }
-  destruct (opt_loop bs Hbs [] (-1)%Z strict m (flat_args cs ++ rest) Hm ltac:(lia) Wb Kb S1)
-    as [f1 F1].
-  destruct (req_loop cs Hcs ([] ++ map tree_arg bs) (-1)%Z strict m rest
-                     Hm ltac:(lia) Wc Kc Fg) as [f2 F2].
-  exists (S (Nat.max f1 f2)). intros f Hf. destruct f as [|f]; [lia|].
-  rewrite C09_read_args_passes by reflexivity.
-  rewrite flat_args_app, <- app_assoc.
-  rewrite F1 by lia. cbn [bind]. rewrite F2 by lia. cbn [bind].
-  unfold head_notb in H3, H4.
-  destruct rest as [|t ts]; cbn [bind app].
-  - rewrite map_app. reflexivity.
-  - apply negb_true_iff in H3, H4. rewrite H3. cbn [bind]. rewrite H4. cbn [bind].
-    rewrite map_app. reflexivity.
-Qed.
-
-Lemma brackets_first_split args :
-  brackets_first (map arg_kind args) = true ->
-  exists bs cs, args = bs ++ cs /\
-                forallb is_bracket_arg bs = true /\ forallb is_brace_arg cs = true.
-Proof.
-  induction args as [|a args IH]; cbn [map brackets_first]; intro H.
-  - exists [], []. repeat split.
-  - destruct (arg_kind a) eqn:Ek.
-    + exists [], (a :: args). split; [reflexivity|]. split; [reflexivity|].
-      cbn [forallb]. unfold is_brace_arg at 1. rewrite Ek. cbn [groupkind_beq andb].
-      clear IH Ek. induction args as [|b args IH]; [reflexivity|].
-      cbn [map forallb] in H |- *. apply andb_true_iff in H. destruct H as [Hb H].
-      rewrite (IH H), andb_true_r. exact Hb.
-    + destruct (IH H) as (bs & cs & -> & Hb & Hc).
-      exists (a :: bs), cs. split; [reflexivity|]. split; [|exact Hc].
-      cbn [forallb]. rewrite Hb, andb_true_r. unfold is_bracket_arg. rewrite Ek. reflexivity.
-Qed.
-
-(* ------------------------------------------------------- the command *)
-
-Lemma name_ok_parts n :
-  name_ok n = true ->
-  signature_of (ttext n) = ((-1)%Z, (-1)%Z) /\ str_eqb (ttext n) s_item = false /\
-  str_eqb (ttext n) s_begin = false /\ str_eqb (ttext n) s_end = false /\
-  mem_str (ttext n) Tables.special_commands = false.
-Proof.
-  unfold name_ok. intro H.
-  apply andb_true_iff in H. destruct H as [H H5].
-  apply andb_true_iff in H. destruct H as [H H4].
-  apply andb_true_iff in H. destruct H as [H H3].
-  apply andb_true_iff in H. destruct H as [H1 H2].
-  apply negb_true_iff in H2, H3, H4, H5.
-  destruct (signature_of (ttext n)) as [a b].
-  apply andb_true_iff in H1. destruct H1 as [Ha Hb].
-  apply Z.eqb_eq in Ha, Hb. subst. auto.
-Qed.
-
-Lemma read_command_plain f strict m n src :
-  signature_of (ttext n) = ((-1)%Z, (-1)%Z) ->
-  mem_str (ttext n) Tables.special_commands = false ->
-  read_command (S f) (-1) (-1) 0 strict m (n :: src) =
-  bind (read_args f (-1) (-1) strict m src) (fun '(args, src1) => Ok ((ttext n, args), src1)).
-Proof.
-  intros Hs Hm. simpl. change (skipn 0 (n :: src)) with (n :: src). cbv iota beta.
-  rewrite Hs, Hm. reflexivity.
-Qed.
-
-(* the command part of a plain-named command: the name and all of its
-   arguments; used for \name, \begin and \end alike *)
-Lemma cmd_head_read n bs cs : Forall PPa bs -> Forall PPa cs -> forall strict m rest,
-  mode_is_special m = false ->
-  signature_of (ttext n) = ((-1)%Z, (-1)%Z) ->
-  mem_str (ttext n) Tables.special_commands = false ->
-  forallb (wf_arg (mode_is_math m)) bs = true -> forallb is_bracket_arg bs = true ->
-  forallb (wf_arg (mode_is_math m)) cs = true -> forallb is_brace_arg cs = true ->
-  cmd_follow (bs ++ cs) rest = true ->
-  Reads (fun f => read_command f (-1) (-1) 0 strict m (n :: flat_args (bs ++ cs) ++ rest))
-        (Ok ((ttext n, map tree_arg (bs ++ cs)), rest)).
-Proof.
-  intros Hbs Hcs strict m rest Hm Hsig Hsp Wb Kb Wc Kc Hfol.
-  destruct (args_read bs cs Hbs Hcs strict m rest Hm Wb Kb Wc Kc Hfol) as [f1 F1].
-  exists (S f1). intros f Hf. destruct f as [|f]; [lia|].
-  rewrite (read_command_plain f strict m n _ Hsig Hsp), F1 by lia. reflexivity.
-Qed.
-
-Lemma read_expr_plain_cmd f skip strict m e n src args src1 :
-  is_tc TEscape e = true -> name_ok n = true ->
-  read_command f (-1) (-1) 0 strict m (n :: src) = Ok ((ttext n, args), src1) ->
-  read_expr (S f) skip strict m (e :: n :: src) =
-  Ok (ECmd (strip (ttext n)) args [] (tpos e), src1).
-Proof.
-  intros He Hn Ha. destruct (name_ok_parts n Hn) as (Hs & Hi & Hb & _ & Hm).
-  cbn [read_expr]. rewrite (escape_not_math_begin e He), He, Ha. cbn [bind].
-  rewrite Hi, Hb. reflexivity.
-Qed.
-
-(* ------------------------------------------------------- environments *)
-
-(* read_command with one token to skip is read_command on the tail *)
-Lemma read_command_skip1 f nreq nopt strict m e src :
-  read_command f nreq nopt 1 strict m (e :: src) = read_command f nreq nopt 0 strict m src.
-Proof.
-  destruct f as [|f]; [reflexivity|]. cbn [read_command].
-  change (skipn 1 (e :: src)) with src. change (skipn 0 src) with src.
-  assert (H1 : (length (e :: src) <? 1)%nat = false) by (apply Nat.ltb_ge; simpl; lia).
-  assert (H2 : (length src <? 0)%nat = false) by (apply Nat.ltb_ge; lia).
-  rewrite H1, H2. reflexivity.
-Qed.
-
-(* "a peek returns what the real read returns": if read_expr succeeds on an
-   escape, the look-ahead of read_env / read_item on the same tokens succeeds
-   and reports the token after the escape as the command name *)
-Lemma peek_of_read_expr f skip strict m e n src r :
-  is_tc TEscape e = true ->
-  read_expr (S f) skip strict m (e :: n :: src) = Ok r ->
-  exists args src1,
-    read_command f (-1) (-1) 1 strict m (e :: n :: src) = Ok ((ttext n, args), src1).
-Proof.
-  intros He H. cbn [read_expr] in H. rewrite (escape_not_math_begin e He), He in H.
-  apply bind_ok in H. destruct H as ([[name args] src1] & Hc & _).
-  pose proof (read_command_name _ _ _ _ _ _ _ _ _ _ Hc) as Hn. subst name.
-  exists args, src1. rewrite read_command_skip1. exact Hc.
-Qed.
-
-(* one layer of the environment loop *)
-Lemma env_loop_step_other f name args pos skip strict m acc t l :
-  is_tc TEscape t = false ->
-  read_env_loop (S f) name args pos skip strict m acc (t :: l) =
-  bind (read_expr f skip strict m (t :: l)) (fun '(e, src1) =>
-    read_env_loop f name args pos skip strict m (acc ++ [e]) src1).
-Proof. intro H. simpl. rewrite H. reflexivity. Qed.
-
-Lemma env_loop_step_esc f name args pos skip strict m acc t l cname cargs crest :
-  is_tc TEscape t = true ->
-  read_command f (-1) (-1) 1 strict m (t :: l) = Ok ((cname, cargs), crest) ->
-  str_eqb cname s_end = false ->
-  read_env_loop (S f) name args pos skip strict m acc (t :: l) =
-  bind (read_expr f skip strict m (t :: l)) (fun '(e, src1) =>
-    read_env_loop f name args pos skip strict m (acc ++ [e]) src1).
-Proof. intros H Hc Hn. simpl. rewrite H, Hc. cbn [bind]. rewrite Hn. reflexivity. Qed.
-
-Lemma env_loop_end f name args pos skip strict m acc t l cname a0 cargs crest c src3 g rest :
-  is_tc TEscape t = true ->
-  read_command f (-1) (-1) 1 strict m (t :: l) = Ok ((cname, a0 :: cargs), crest) ->
-  str_eqb cname s_end = true -> str_eqb (arg_string a0) name = true ->
-  snd (read_spacer (skipn 2 (t :: l))) = c :: src3 ->
-  read_arg f c strict m src3 = Ok (g, rest) ->
-  read_env_loop (S f) name args pos skip strict m acc (t :: l) =
-  Ok (ENamed name args acc pos, rest).
-Proof.
-  intros H Hc Hn Ha Hs Hg. simpl. rewrite H, Hc. cbn [bind]. rewrite Hn, Ha. cbn [negb].
-  destruct (read_spacer (skipn 2 (t :: l))) as [b0 src2]. cbn [snd] in Hs. subst src2.
-  rewrite Hg. reflexivity.
-Qed.
-
-(* an element that starts with an escape is a command or an environment:
-   its second token is the name, and the name is not `end` *)
-Lemma escape_head_shape mm d :
-  wf mm d = true -> is_tc TEscape (dhead d) = true ->
-  exists n tl, flat d = dhead d :: n :: tl /\ str_eqb (ttext n) s_end = false.
-Proof.
-  destruct d as [t|o b c|e n args|k o b c|e b ng body e2 en ng2]; intros Hwf He; cbn [dhead] in He.
-  - exfalso. cbn [wf] in Hwf. apply is_tc_true in He. rewrite He in Hwf. discriminate Hwf.
-  - exfalso. rewrite wf_group in Hwf.
-    apply andb_true_iff in Hwf. destruct Hwf as [Hwf _].
-    apply andb_true_iff in Hwf. destruct Hwf as [H1 _].
-    rewrite (is_tc_excl _ TEscape _ H1) in He; discriminate.
-  - rewrite wf_cmd in Hwf.
-    apply andb_true_iff in Hwf. destruct Hwf as [Hwf _].
-    apply andb_true_iff in Hwf. destruct Hwf as [Hwf _].
-    apply andb_true_iff in Hwf. destruct Hwf as [_ H2].
-    destruct (name_ok_parts n H2) as (_ & _ & _ & Hend & _).
-    exists n, (flat_args args). split; [reflexivity | exact Hend].
-  - exfalso. rewrite wf_math in Hwf.
-    apply andb_true_iff in Hwf. destruct Hwf as [Hwf _].
-    apply andb_true_iff in Hwf. destruct Hwf as [H1 _].
-    apply opens_math_kind_spec in H1. destruct H1 as [H1 _].
-    rewrite (escape_not_math_begin o He) in H1. discriminate H1.
-  - rewrite wf_env in Hwf.
-    do 11 (apply andb_true_iff in Hwf; destruct Hwf as [Hwf _]).
-    apply andb_true_iff in Hwf. destruct Hwf as [_ Hb]. apply str_eqb_eq in Hb.
-    exists b, (flat_arg ng ++ flat_list body ++ e2 :: en :: flat_arg ng2).
-    split; [reflexivity|]. rewrite Hb. reflexivity.
-Qed.
-
-Lemma end_facts en :
-  str_eqb (ttext en) s_end = true ->
-  signature_of (ttext en) = ((-1)%Z, (-1)%Z) /\
-  mem_str (ttext en) Tables.special_commands = false.
-Proof. intro H. apply str_eqb_eq in H. rewrite H. split; vm_compute; reflexivity. Qed.
-
-Lemma begin_facts b :
-  str_eqb (ttext b) s_begin = true ->
-  signature_of (ttext b) = ((-1)%Z, (-1)%Z) /\
-  mem_str (ttext b) Tables.special_commands = false /\ ttext b = s_begin.
-Proof.
-  intro H. apply str_eqb_eq in H. rewrite H. repeat split; vm_compute; reflexivity.
-Qed.
-
-(* the body of an environment: elements one by one (each escape is peeked
-   at first), then  \end <name group> *)
-Lemma seq_env ds : Forall PPd ds ->
-  forall name args pos skip strict m acc e2 en ng2 rest,
-  mode_is_special m = false -> sub_skip SK skip ->
-  seq_wf (wf (mode_is_math m)) CEnv ds (e2 :: en :: flat_arg ng2 ++ rest) = true ->
-  PPa ng2 ->
-  is_tc TEscape e2 = true -> str_eqb (ttext en) s_end = true ->
-  wf_arg (mode_is_math m) ng2 = true -> is_brace_arg ng2 = true ->
-  str_eqb (arg_string (tree_arg ng2)) name = true -> cmd_follow [ng2] rest = true ->
-  Reads (fun f => read_env_loop f name args pos skip strict m acc
-                    (flat_list ds ++ e2 :: en :: flat_arg ng2 ++ rest))
-        (Ok (ENamed name args (acc ++ map tree ds) pos, rest)).
-Proof.
-  induction 1 as [|d ds Hd Hds IH];
-    intros name args pos skip strict m acc e2 en ng2 rest Hm Hsk Hwf Hng2 He2 Hen Wng2 Kng2 Hnm Hfol.
-  - (* \end{name} *)
-    destruct (end_facts en Hen) as [Hsig Hsp].
-    assert (Wc : forallb (wf_arg (mode_is_math m)) [ng2] = true)
-      by (cbn [forallb]; rewrite Wng2; reflexivity).
-    assert (Kc : forallb is_brace_arg [ng2] = true)
-      by (cbn [forallb]; rewrite Kng2; reflexivity).
-    destruct (cmd_head_read en [] [ng2] (Forall_nil _) (Forall_cons _ Hng2 (Forall_nil _))
-                strict m rest Hm Hsig Hsp eq_refl eq_refl Wc Kc Hfol) as [f1 F1].
-    destruct ng2 as [sp k o b c].
-    destruct (wf_arg_parts _ _ _ _ _ _ Wng2) as (W1 & W2 & W3 & W4).
-    apply opens_group_kind_spec in W2. destruct W2 as (_ & _ & Ho & _).
-    destruct (Hng2 strict m rest Hm Wng2) as [f2 F2].
-    exists (S (Nat.max f1 f2)). intros f Hf. destruct f as [|f]; [lia|].
-    change (flat_list [] ++ e2 :: en :: flat_arg (Arg sp k o b c) ++ rest)
-      with (e2 :: en :: flat_arg (Arg sp k o b c) ++ rest).
-    simpl map. rewrite app_nil_r.
-    apply (env_loop_end f name args pos skip strict m acc e2 _ (ttext en)
-             (tree_arg (Arg sp k o b c)) [] rest o
-             (arg_inner (Arg sp k o b c) ++ rest) (tree_arg (Arg sp k o b c)) rest He2).
-    + rewrite read_command_skip1.
-      assert (E := F1 f ltac:(lia)). cbv beta in E.
-      unfold flat_args in E. cbn [app map concat] in E. rewrite app_nil_r in E. exact E.
-    + exact Hen.
-    + exact Hnm.
-    + change (skipn 2 (e2 :: en :: flat_arg (Arg sp k o b c) ++ rest))
-        with (flat_arg (Arg sp k o b c) ++ rest).
-      apply arg_after_spacer; assumption.
-    + apply (F2 f). lia.
-  - rewrite seq_wf_cons in Hwf.
-    apply andb_true_iff in Hwf. destruct Hwf as [Hwf H4].
-    apply andb_true_iff in Hwf. destruct Hwf as [Hwf H3].
-    apply andb_true_iff in Hwf. destruct Hwf as [_ H2].
-    set (tail := e2 :: en :: flat_arg ng2 ++ rest) in *.
-    destruct (Hd skip strict m (flat_list ds ++ tail) Hm Hsk H2 H3) as [f1 F1].
-    destruct (IH name args pos skip strict m (acc ++ [tree d]) e2 en ng2 rest
-                 Hm Hsk H4 Hng2 He2 Hen Wng2 Kng2 Hnm Hfol) as [f2 F2].
-    fold tail in F2.
-    exists (S (S (Nat.max f1 f2))). intros f Hf. destruct f as [|f]; [lia|].
-    rewrite flat_list_cons, <- app_assoc.
-    assert (E1 := F1 f ltac:(lia)). cbv beta in E1.
-    destruct (is_tc TEscape (dhead d)) eqn:Ee.
-    + destruct (escape_head_shape _ d H2 Ee) as (n & tl & Htl & Hnend).
-      rewrite Htl in E1 |- *. rewrite <- !app_comm_cons in E1 |- *.
-      destruct f as [|f]; [lia|].
-      destruct (peek_of_read_expr f skip strict m (dhead d) n _ _ Ee E1) as (pa & ps & Hp).
-      assert (Hp' : read_command (S f) (-1) (-1) 1 strict m (dhead d :: n :: tl ++ flat_list ds ++ tail)
-                    = Ok ((ttext n, pa), ps)).
-      { apply (enough_fuel_command f (S f)); [exact Hp | discriminate | lia]. }
-      rewrite (env_loop_step_esc (S f) name args pos skip strict m acc (dhead d) _ _ _ _
-                 Ee Hp' Hnend).
-      rewrite E1. cbn [bind]. rewrite F2 by lia. rewrite <- app_assoc. reflexivity.
-    + destruct (flat_head d) as [tl Htl].
-      rewrite Htl in E1 |- *. rewrite <- !app_comm_cons in E1 |- *.
-      rewrite (env_loop_step_other f name args pos skip strict m acc (dhead d) _ Ee).
-      rewrite E1. cbn [bind]. rewrite F2 by lia. rewrite <- app_assoc. reflexivity.
-Qed.
-
-(* \begin <name group> hands over to the environment loop *)
-Lemma read_expr_begin f skip strict m e b src a0 args' src1 :
-  is_tc TEscape e = true -> mode_is_special m = false ->
-  read_command f (-1) (-1) 0 strict m (b :: src) = Ok ((s_begin, a0 :: args'), src1) ->
-  mem_str (strip (arg_string a0)) Tables.math_env_names = false ->
-  mem_str (strip (arg_string a0)) skip = false ->
-  read_expr (S f) skip strict m (e :: b :: src) =
-  read_env_loop f (strip (arg_string a0)) args' (tpos e) skip strict m [] src1.
-Proof.
-  intros He Hm Hc Hmath Hskip. cbn [read_expr].
-  rewrite (escape_not_math_begin e He), He, Hc. cbn [bind].
-  replace (str_eqb s_begin s_item) with false by (vm_compute; reflexivity).
-  replace (str_eqb s_begin s_begin) with true by (vm_compute; reflexivity).
-  rewrite Hm. cbn [negb andb]. rewrite Hmath, Hskip. reflexivity.
-Qed.
-
-(* ------------------------------------------------------- the induction *)
-
-Theorem PP_all : forall d, PPd d.
-Proof.
-  apply (doc_ind' PPd PPa).
-  - (* leaf *)
-    intros t skip strict m rest _ _ Hwf _. exists 1%nat. intros f Hf. destruct f as [|f]; [lia|].
-    cbn [flat tree app]. apply read_expr_leaf. exact Hwf.
-  - (* brace group *)
-    intros o b c Hb skip strict m rest _ _ Hwf _. rewrite wf_group in Hwf.
-    apply andb_true_iff in Hwf. destruct Hwf as [Hwf H3].
-    apply andb_true_iff in Hwf. destruct Hwf as [H1 H2].
-    assert (Wa : wf_arg (mode_is_math MNonMath) (Arg None GBrace o b c) = true).
-    { rewrite wf_arg_eq, H2. cbn [mode_is_math]. rewrite H3. unfold opens_group_kind.
-      replace (group_tok_begin GBrace) with (Some TGroupBegin) by (vm_compute; reflexivity).
-      rewrite H1. reflexivity. }
-    destruct (arg_group None GBrace o b c Hb strict MNonMath rest eq_refl Wa) as [f1 F1].
-    exists (S f1). intros f Hf. destruct f as [|f]; [lia|].
-    rewrite flat_group. rewrite <- app_comm_cons.
-    rewrite (read_expr_group_open f skip strict m o _ H1).
-    apply (F1 f). lia.
-  - (* command *)
-    intros e n args Hargs skip strict m rest Hm _ Hwf Hfol. rewrite wf_cmd in Hwf.
-    apply andb_true_iff in Hwf. destruct Hwf as [Hwf H4].
-    apply andb_true_iff in Hwf. destruct Hwf as [Hwf H3].
-    apply andb_true_iff in Hwf. destruct Hwf as [H1 H2].
-    destruct (brackets_first_split args H3) as (bs & cs & -> & Kb & Kc).
-    apply Forall_app in Hargs. destruct Hargs as [Hbs Hcs].
-    rewrite forallb_app in H4. apply andb_true_iff in H4. destruct H4 as [Wb Wc].
-    cbn [follows_ok] in Hfol.
-    destruct (name_ok_parts n H2) as (Hsig & _ & _ & _ & Hsp).
-    destruct (cmd_head_read n bs cs Hbs Hcs strict m rest Hm Hsig Hsp Wb Kb Wc Kc Hfol)
-      as [f1 F1].
-    exists (S f1). intros f Hf. destruct f as [|f]; [lia|].
-    rewrite flat_cmd. rewrite <- !app_comm_cons.
-    apply (read_expr_plain_cmd f skip strict m e n _ _ rest H1 H2).
-    apply F1. lia.
-  - (* math region *)
-    intros k o b c Hb skip strict m rest _ _ Hwf _. rewrite wf_math in Hwf.
-    apply andb_true_iff in Hwf. destruct Hwf as [Hwf H3].
-    apply andb_true_iff in Hwf. destruct Hwf as [H1 H2].
-    apply opens_math_kind_spec in H1. destruct H1 as [Hk _].
-    pose proof (seq_wf_ext _ (CMath k) b c [] rest (math_end_not_spacer k c H2) H3) as H3'.
-    destruct (seq_math b Hb k (tpos o) strict [] c rest H3' H2) as [f1 F1].
-    exists (S f1). intros f Hf. destruct f as [|f]; [lia|].
-    rewrite flat_math. rewrite <- app_comm_cons, <- app_assoc. cbn [app].
-    rewrite (C12_math_opens f skip strict m o _ k Hk).
-    apply F1. lia.
-  - (* environment *)
-    intros e b ng body e2 en ng2 Hng Hbody Hng2 skip strict m rest Hm Hsk Hwf Hfol.
-    rewrite wf_env in Hwf.
-    apply andb_true_iff in Hwf. destruct Hwf as [Hwf W13].
-    apply andb_true_iff in Hwf. destruct Hwf as [Hwf W12].
-    apply andb_true_iff in Hwf. destruct Hwf as [Hwf W11].
-    apply andb_true_iff in Hwf. destruct Hwf as [Hwf W10].
-    apply andb_true_iff in Hwf. destruct Hwf as [Hwf W9].
-    apply andb_true_iff in Hwf. destruct Hwf as [Hwf W8].
-    apply andb_true_iff in Hwf. destruct Hwf as [Hwf W7].
-    apply andb_true_iff in Hwf. destruct Hwf as [Hwf W6].
-    apply andb_true_iff in Hwf. destruct Hwf as [Hwf W5].
-    apply andb_true_iff in Hwf. destruct Hwf as [Hwf W4].
-    apply andb_true_iff in Hwf. destruct Hwf as [Hwf W3].
-    apply andb_true_iff in Hwf. destruct Hwf as [W1 W2].
-    apply negb_true_iff in W5, W6.
-    cbn [follows_ok] in Hfol.
-    destruct (begin_facts b W2) as (Hsig & Hsp & Hb).
-    set (tail := e2 :: en :: flat_arg ng2 ++ rest).
-    assert (Ne2 : is_tc TMergedSpacer e2 = false)
-      by (apply (is_tc_excl _ _ _ W9); discriminate).
-    (* the command part of \begin *)
-    assert (Wc : forallb (wf_arg (mode_is_math m)) [ng] = true)
-      by (cbn [forallb]; rewrite W3; reflexivity).
-    assert (Kc : forallb is_brace_arg [ng] = true)
-      by (cbn [forallb]; rewrite W4; reflexivity).
-    assert (Fb : cmd_follow [ng] (flat_list body ++ tail) = true).
-    { unfold tail. change (e2 :: en :: flat_arg ng2 ++ rest)
-                     with (e2 :: [] ++ (en :: flat_arg ng2 ++ rest)).
-      rewrite <- (cmd_follow_ext [ng] (flat_list body) e2 [] _ Ne2). exact W7. }
-    destruct (cmd_head_read b [] [ng] (Forall_nil _) (Forall_cons _ Hng (Forall_nil _))
-                strict m (flat_list body ++ tail) Hm Hsig Hsp eq_refl eq_refl Wc Kc Fb)
-      as [f1 F1].
-    (* the body and \end *)
-    assert (Wb : seq_wf (wf (mode_is_math m)) CEnv body tail = true).
-    { unfold tail. change (e2 :: en :: flat_arg ng2 ++ rest)
-                     with (e2 :: [en] ++ (flat_arg ng2 ++ rest)).
-      apply seq_wf_ext; [exact Ne2 | exact W8]. }
-    destruct (seq_env body Hbody (env_name ng) [] (tpos e) skip strict m [] e2 en ng2 rest
-                      Hm Hsk Wb Hng2 W9 W10 W11 W12 W13 Hfol) as [f2 F2].
-    fold tail in F2.
-    assert (Hskip : mem_str (env_name ng) skip = false).
-    { destruct (mem_str (env_name ng) skip) eqn:E; [|reflexivity].
-      apply Hsk in E. congruence. }
-    exists (S (Nat.max f1 f2)). intros f Hf. destruct f as [|f]; [lia|].
-    rewrite flat_env. rewrite <- !app_comm_cons.
-    assert (E1 := F1 f ltac:(lia)). cbv beta in E1.
-    unfold flat_args in E1. cbn [app map concat] in E1. rewrite app_nil_r in E1.
-    rewrite Hb in E1.
-    replace ((flat_arg ng ++ flat_list body ++ e2 :: en :: flat_arg ng2) ++ rest)
-      with (flat_arg ng ++ flat_list body ++ tail).
-    2:{ unfold tail. rewrite <- !app_assoc. rewrite <- !app_comm_cons. reflexivity. }
-    rewrite (read_expr_begin f skip strict m e b _ (tree_arg ng) [] _ W1 Hm E1 W5 Hskip).
-    cbn [tree]. apply (F2 f). lia.
-  - (* argument group *)
-    intros sp k o b c Hb. apply arg_group. exact Hb.
-Qed.
-
-Lemma PP_Forall ds : Forall PPd ds.
-Proof. apply Forall_forall. intros d _. apply PP_all. Qed.
-
-(* ------------------------------ explicit fuel (via Stage 0 and TOT) *)
-
-(* one document element, followed by anything its follow condition allows *)
-Theorem PP_expr d skip strict m rest f :
-  mode_is_special m = false -> sub_skip SK skip ->
-  wf (mode_is_math m) d = true -> follows_ok d rest = true ->
-  (3 * length (flat d ++ rest) + 1 <= f)%nat ->
-  read_expr f skip strict m (flat d ++ rest) = Ok (tree d, rest).
-Proof.
-  intros Hm Hsk Hwf Hfol Hf.
-  destruct (PP_all d skip strict m rest Hm Hsk Hwf Hfol) as [f0 F0].
-  apply (fuel_any_expr f0); [apply F0; lia | exact Hf].
-Qed.
-
-(* the body of a group closed by `c` *)
-Theorem PP_seq_group ds k pos strict m acc c rest f :
-  mode_is_special m = false ->
-  wf_seq (mode_is_math m) (CGroup k) ds (c :: rest) = true -> is_group_end k c = true ->
-  (3 * length (flat_list ds ++ c :: rest) + 2 <= f)%nat ->
-  read_arg_loop f k pos strict m acc (flat_list ds ++ c :: rest)
-  = Ok (EGroup k (acc ++ map tree ds) pos, rest).
-Proof.
-  intros Hm Hwf Hc Hf.
-  destruct (seq_group ds (PP_Forall ds) k pos strict m acc c rest Hm Hwf Hc) as [f0 F0].
-  apply (fuel_any_argloop f0); [apply F0; lia | exact Hf].
-Qed.
-
-(* the body of a math region closed by `c` *)
-Theorem PP_seq_math ds k pos strict acc c rest f :
-  wf_seq true (CMath k) ds (c :: rest) = true -> is_math_end k c = true ->
-  (3 * length (flat_list ds ++ c :: rest) + 2 <= f)%nat ->
-  read_math_loop f k pos strict acc (flat_list ds ++ c :: rest)
-  = Ok (EMath k (acc ++ map tree ds) pos, rest).
-Proof.
-  intros Hwf Hc Hf.
-  destruct (seq_math ds (PP_Forall ds) k pos strict acc c rest Hwf Hc) as [f0 F0].
-  apply (fuel_any_math f0); [apply F0; lia | exact Hf].
-Qed.
-
-(* --------------------------------------------------------- top level *)
-
-Lemma read_tex_loop_step f ef skip strict acc toks :
-  toks <> [] ->
-  read_tex_loop (S f) ef skip strict acc toks =
-  bind (read_expr ef skip strict MNonMath toks) (fun '(e, rest) =>
-    read_tex_loop f ef skip strict (acc ++ [e]) rest).
-Proof. destruct toks; [congruence | reflexivity]. Qed.
-
-Theorem PP_tex_loop ds : forall fuel efuel skip strict acc,
-  sub_skip SK skip -> wf_seq false CTop ds [] = true ->
-  (length (flat_list ds) < fuel)%nat -> (3 * length (flat_list ds) + 1 <= efuel)%nat ->
-  read_tex_loop fuel efuel skip strict acc (flat_list ds) = Ok (acc ++ map tree ds).
-Proof.
-  induction ds as [|d ds IH]; intros fuel efuel skip strict acc Hsk Hwf Hfu Hef.
-  - destruct fuel as [|fuel]; [simpl in Hfu; lia|]. simpl. rewrite app_nil_r. reflexivity.
-  - unfold wf_seq in Hwf. rewrite seq_wf_cons in Hwf.
-    apply andb_true_iff in Hwf. destruct Hwf as [Hwf H4].
-    apply andb_true_iff in Hwf. destruct Hwf as [Hwf H3].
-    apply andb_true_iff in Hwf. destruct Hwf as [_ H2].
-    rewrite app_nil_r in H3.
-    rewrite flat_list_cons in Hfu, Hef |- *. rewrite app_length in Hfu, Hef.
-    pose proof (flat_length_pos d) as Hpos.
-    destruct fuel as [|fuel]; [lia|].
-    rewrite read_tex_loop_step.
-    2:{ destruct (flat_head d) as [tl ->]. discriminate. }
-    rewrite (PP_expr d skip strict MNonMath (flat_list ds) efuel eq_refl Hsk H2 H3)
-      by (rewrite app_length; lia).
-    cbn [bind]. rewrite IH; [|exact Hsk|exact H4|lia|lia].
-    rewrite <- app_assoc. reflexivity.
-Qed.
-
 End WithSkip.
-
-Lemma sub_skip_refl SK : sub_skip SK SK.
-Proof. intros n H. exact H. Qed.
-
-(* PP, top level: the token list of a well-formed document sequence parses
-   to exactly the expected trees, in both tolerance modes; the environment
-   names must not be among the verbatim names (built-in or user's) *)
-Theorem PP_parse_tokens ds strict user :
-  wf_seq (all_skip user) false CTop ds [] = true ->
-  parse_tokens (flat_list ds) strict user = Ok (ERoot (map tree ds)).
-Proof.
-  intro Hwf. unfold parse_tokens, fuel_for.
-  rewrite (PP_tex_loop (all_skip user) ds _ _ _ strict [] (sub_skip_refl _) Hwf) by lia.
-  reflexivity.
-Qed.
-
-(* ====================================================================== *)
-(* print o parse o print: the expected tree prints as the tokens          *)
-(* ====================================================================== *)
-
-(* no spacer between a command and its argument groups, unpadded names *)
-Fixpoint printable (d : doc) : bool :=
-  match d with
-  | DLeaf _ => true
-  | DGroup _ b _ => forallb printable b
-  | DCmd _ n args => str_eqb (strip (ttext n)) (ttext n) && forallb printable_arg args
-  | DMath _ _ b _ => forallb printable b
-  | DEnv _ _ ng body _ _ ng2 =>
-    printable_arg ng && printable_arg ng2 &&
-    str_eqb (strip (arg_string (tree_arg ng))) (arg_string (tree_arg ng)) &&
-    forallb printable body
-  end
-with printable_arg (a : arg) : bool :=
-  match a with
-  | Arg sp _ _ b _ => match sp with None => true | Some _ => false end && forallb printable b
-  end.
-
-Section Print.
-Variable SK : list str.
-
-Definition estr_d (d : doc) : Prop := forall mm,
-  wf SK mm d = true -> printable d = true -> Forall tok_wf (flat d) ->
-  estr (tree d) = texts (flat d).
-Definition estr_a (a : arg) : Prop := forall mm,
-  wf_arg SK mm a = true -> printable_arg a = true -> Forall tok_wf (flat_arg a) ->
-  estr (tree_arg a) = texts (flat_arg a).
-
-Lemma texts_cons t l : texts (t :: l) = ttext t ++ texts l.
-Proof. reflexivity. Qed.
-Lemma texts_one t : texts [t] = ttext t.
-Proof. unfold texts. simpl. apply app_nil_r. Qed.
-
-Lemma estr_body mm x b : Forall estr_d b -> forall r,
-  seq_wf (wf SK mm) x b r = true -> forallb printable b = true ->
-  Forall tok_wf (flat_list b) ->
-  concat (map estr (map tree b)) = texts (flat_list b).
-Proof.
-  intros Hb r. induction Hb as [|d b Hd _ IH]; intros Hwf Hp Ht; [reflexivity|].
-  rewrite seq_wf_cons in Hwf.
-  apply andb_true_iff in Hwf. destruct Hwf as [Hwf H4].
-  apply andb_true_iff in Hwf. destruct Hwf as [Hwf _].
-  apply andb_true_iff in Hwf. destruct Hwf as [_ H2].
-  cbn [forallb] in Hp. apply andb_true_iff in Hp. destruct Hp as [Hp1 Hp2].
-  rewrite flat_list_cons in Ht |- *. apply Forall_app in Ht. destruct Ht as [Ht1 Ht2].
-  cbn [map concat]. rewrite texts_app, (Hd mm H2 Hp1 Ht1), (IH H4 Hp2 Ht2). reflexivity.
-Qed.
-
-Lemma tok_wf_group_begin o k :
-  tok_wf o -> group_tok_begin k = Some (tcat o) -> ttext o = group_begin k.
-Proof. intros (H & _) E. apply H. exact E. Qed.
-Lemma tok_wf_group_end c k :
-  tok_wf c -> is_group_end k c = true -> ttext c = group_end k.
-Proof. intros (_ & H & _) E. apply H. apply is_group_end_tok. exact E. Qed.
-Lemma tok_wf_math_begin o k :
-  tok_wf o -> math_tok_begin k = Some (tcat o) -> ttext o = math_begin k.
-Proof. intros (_ & _ & H & _) E. apply H. exact E. Qed.
-Lemma tok_wf_math_end c k :
-  tok_wf c -> is_math_end k c = true -> ttext c = math_end k.
-Proof. intros (_ & _ & _ & H & _) E. apply H. apply is_math_end_tok. exact E. Qed.
-Lemma tok_wf_escape e : tok_wf e -> is_tc TEscape e = true -> ttext e = [backslash].
-Proof. intros (_ & _ & _ & _ & H) E. apply H. apply is_tc_true. exact E. Qed.
-
-Lemma estr_arg_group sp k o b c : Forall estr_d b -> estr_a (Arg sp k o b c).
-Proof.
-  intros Hb mm Hwf Hp Ht.
-  destruct (wf_arg_parts _ _ _ _ _ _ _ Hwf) as (W1 & W2 & W3 & W4).
-  apply opens_group_kind_spec in W2. destruct W2 as (_ & Hk & _).
-  cbn [printable_arg] in Hp. apply andb_true_iff in Hp. destruct Hp as [Hsp Hp].
-  destruct sp as [s|]; [discriminate Hsp|].
-  rewrite flat_arg_eq in Ht |- *. cbn [opt_tok app] in Ht |- *.
-  inversion Ht as [|? ? To Ht']; subst. apply Forall_app in Ht'. destruct Ht' as [Tb Tc].
-  inversion Tc as [|? ? Tc' _]; subst.
-  cbn [tree_arg estr]. rewrite texts_cons, texts_app, texts_one.
-  rewrite (estr_body mm (CGroup k) b Hb [c] W4 Hp Tb).
-  rewrite (tok_wf_group_begin o k To Hk), (tok_wf_group_end c k Tc' W3).
-  reflexivity.
-Qed.
-
-(* a brace argument prints as  { <its string> } *)
-Lemma estr_brace_arg a : is_brace_arg a = true ->
-  estr (tree_arg a) = [123%N] ++ arg_string (tree_arg a) ++ [125%N].
-Proof.
-  destruct a as [sp k o b c]. unfold is_brace_arg. cbn [arg_kind]. intro H.
-  apply groupkind_eqb_eq in H. subst k. reflexivity.
-Qed.
-
-Theorem estr_tree_all : forall d, estr_d d.
-Proof.
-  apply (doc_ind' estr_d estr_a).
-  - intros t mm _ _ _. cbn [tree estr flat]. rewrite texts_one. reflexivity.
-  - intros o b c Hb mm Hwf Hp Ht.
-    assert (Wa : wf_arg SK false (Arg None GBrace o b c) = true).
-    { rewrite wf_group in Hwf. rewrite wf_arg_eq.
-      apply andb_true_iff in Hwf. destruct Hwf as [Hwf H3].
-      apply andb_true_iff in Hwf. destruct Hwf as [H1 H2].
-      rewrite H2, H3. unfold opens_group_kind.
-      replace (group_tok_begin GBrace) with (Some TGroupBegin) by (vm_compute; reflexivity).
-      rewrite H1. reflexivity. }
-    exact (estr_arg_group None GBrace o b c Hb false Wa Hp Ht).
-  - intros e n args Hargs mm Hwf Hp Ht. rewrite wf_cmd in Hwf.
-    apply andb_true_iff in Hwf. destruct Hwf as [Hwf H4].
-    apply andb_true_iff in Hwf. destruct Hwf as [Hwf _].
-    apply andb_true_iff in Hwf. destruct Hwf as [H1 _].
-    cbn [printable] in Hp. apply andb_true_iff in Hp. destruct Hp as [Hn Hp].
-    apply str_eqb_eq in Hn.
-    rewrite flat_cmd in Ht |- *.
-    inversion Ht as [|? ? Te Ht']; subst. inversion Ht' as [|? ? _ Ta]; subst.
-    cbn [tree estr]. rewrite !texts_cons, (tok_wf_escape e Te H1), Hn.
-    cbn [app]. f_equal. f_equal. rewrite app_nil_r.
-    clear - Hargs H4 Hp Ta.
-    induction Hargs as [|a args Ha _ IH]; [reflexivity|].
-    cbn [forallb] in H4, Hp.
-    apply andb_true_iff in H4. destruct H4 as [W1 W2].
-    apply andb_true_iff in Hp. destruct Hp as [P1 P2].
-    rewrite flat_args_cons in Ta |- *. apply Forall_app in Ta. destruct Ta as [T1 T2].
-    cbn [map concat]. rewrite texts_app, (Ha mm W1 P1 T1), (IH W2 P2 T2). reflexivity.
-  - intros k o b c Hb mm Hwf Hp Ht. rewrite wf_math in Hwf.
-    apply andb_true_iff in Hwf. destruct Hwf as [Hwf H3].
-    apply andb_true_iff in Hwf. destruct Hwf as [H1 H2].
-    apply opens_math_kind_spec in H1. destruct H1 as [_ Hk].
-    cbn [printable] in Hp.
-    rewrite flat_math in Ht |- *.
-    inversion Ht as [|? ? To Ht']; subst. apply Forall_app in Ht'. destruct Ht' as [Tb Tc].
-    inversion Tc as [|? ? Tc' _]; subst.
-    cbn [tree estr]. rewrite texts_cons, texts_app, texts_one.
-    rewrite (estr_body true (CMath k) b Hb [c] H3 Hp Tb).
-    rewrite (tok_wf_math_begin o k To Hk), (tok_wf_math_end c k Tc' H2).
-    reflexivity.
-  - (* environment *)
-    intros e b ng body e2 en ng2 Hng Hbody Hng2 mm Hwf Hp Ht.
-    rewrite wf_env in Hwf.
-    apply andb_true_iff in Hwf. destruct Hwf as [Hwf W13].
-    apply andb_true_iff in Hwf. destruct Hwf as [Hwf W12].
-    apply andb_true_iff in Hwf. destruct Hwf as [Hwf W11].
-    apply andb_true_iff in Hwf. destruct Hwf as [Hwf W10].
-    apply andb_true_iff in Hwf. destruct Hwf as [Hwf W9].
-    apply andb_true_iff in Hwf. destruct Hwf as [Hwf W8].
-    apply andb_true_iff in Hwf. destruct Hwf as [Hwf W7].
-    apply andb_true_iff in Hwf. destruct Hwf as [Hwf W6].
-    apply andb_true_iff in Hwf. destruct Hwf as [Hwf W5].
-    apply andb_true_iff in Hwf. destruct Hwf as [Hwf W4].
-    apply andb_true_iff in Hwf. destruct Hwf as [Hwf W3].
-    apply andb_true_iff in Hwf. destruct Hwf as [W1 W2].
-    apply str_eqb_eq in W2, W10, W13.
-    cbn [printable] in Hp.
-    apply andb_true_iff in Hp. destruct Hp as [Hp P4].
-    apply andb_true_iff in Hp. destruct Hp as [Hp P3].
-    apply andb_true_iff in Hp. destruct Hp as [P1 P2].
-    apply str_eqb_eq in P3.
-    rewrite flat_env in Ht |- *.
-    inversion Ht as [|? ? Te Ht1]; subst. inversion Ht1 as [|? ? _ Ht2]; subst.
-    apply Forall_app in Ht2. destruct Ht2 as [Tng Ht3].
-    apply Forall_app in Ht3. destruct Ht3 as [Tbody Ht4].
-    inversion Ht4 as [|? ? Te2 Ht5]; subst. inversion Ht5 as [|? ? _ Tng2]; subst.
-    rewrite !texts_cons, !texts_app, !texts_cons.
-    rewrite <- (Hng mm W3 P1 Tng), <- (Hng2 mm W11 P2 Tng2).
-    rewrite <- (estr_body mm CEnv body Hbody [e2; en] W8 P4 Tbody).
-    rewrite (estr_brace_arg ng W4), (estr_brace_arg ng2 W12).
-    rewrite (tok_wf_escape e Te W1), (tok_wf_escape e2 Te2 W9), W2, W10, W13.
-    unfold env_name. rewrite P3.
-    cbn [tree estr map concat]. unfold env_begin, env_end.
-    change s_begin_open with ([backslash] ++ s_begin ++ [123%N]).
-    change s_end_open with ([backslash] ++ s_end ++ [123%N]).
-    change s_close with [125%N].
-    rewrite <- !app_assoc. cbn [app]. reflexivity.
-  - intros sp k o b c Hb. apply estr_arg_group. exact Hb.
-Qed.
-
-Theorem estr_tree mm d :
-  wf SK mm d = true -> printable d = true -> Forall tok_wf (flat d) ->
-  estr (tree d) = texts (flat d).
-Proof. apply estr_tree_all. Qed.
-
-Theorem estr_tree_list mm x ds r :
-  wf_seq SK mm x ds r = true -> forallb printable ds = true -> Forall tok_wf (flat_list ds) ->
-  estr (ERoot (map tree ds)) = texts (flat_list ds).
-Proof.
-  intros Hwf Hp Ht. cbn [estr].
-  assert (Hb : Forall estr_d ds) by (apply Forall_forall; intros d _; apply estr_tree_all).
-  exact (estr_body mm x ds Hb r Hwf Hp Ht).
-Qed.
-
-End Print.
-
-(* print o parse o print *)
-Theorem PP_print_parse_print ds strict user :
-  wf_seq (all_skip user) false CTop ds [] = true -> forallb printable ds = true ->
-  Forall tok_wf (flat_list ds) ->
-  exists t, parse_tokens (flat_list ds) strict user = Ok t /\ estr t = texts (flat_list ds).
-Proof.
-  intros Hwf Hp Ht. exists (ERoot (map tree ds)). split.
-  - apply PP_parse_tokens. exact Hwf.
-  - eapply estr_tree_list; eassumption.
-Qed.
